@@ -7,6 +7,7 @@ import DyntplV.DriverR
 import DyntplV.DriverC20
 import DyntplV.DriverC04
 import DyntplV.DriverC12
+import DyntplV.DriverC06
 /-!
   Line-protocol driver: one request per line on stdin, one answer per line on stdout.
   Runs the *same* definitions the theorems are about.
@@ -77,6 +78,9 @@ def answer (line : String) : String :=
   | some a => a
   | none =>
   match DriverC12.answer toks with
+  | some a => a
+  | none =>
+  match DriverC06.answer toks with
   | some a => a
   | none =>
   match DriverC04.answer toks with
